@@ -210,6 +210,8 @@ type zzG10Arena struct {
 	boots   int
 	logPath string
 	rng     *rand.Rand
+	// dupSeen: two lists shared an id at some point of this deployment.
+	dupSeen bool
 }
 
 const zzG10Host = "127.0.0.1"
@@ -317,6 +319,7 @@ func (a *zzG10Arena) listPath(i string) (p string) {
 func (a *zzG10Arena) deploy() {
 	a.kill()
 	a.deploys++
+	a.dupSeen = false
 	a.work = filepath.Join(a.root, fmt.Sprintf("work%d", a.deploys))
 	if err := os.MkdirAll(a.work, 0o755); err != nil {
 		a.t.Fatalf("mkdir: %v", err)
@@ -1593,8 +1596,16 @@ func (a *zzG10Arena) fileState() (st zzG10M, err error) {
 	}
 
 	if l, ok := zzG10Dig(y, "filters").([]any); ok {
+		ids := map[string]bool{}
 		for _, x := range l {
 			r.lists[zzG10Str(zzG10Dig(x, "url"))] = zzG10OnOff(zzG10Bool(zzG10Dig(x, "enabled")))
+			id := zzG10Str(zzG10Dig(x, "id"))
+			if ids[id] {
+				// See notes(): remembered for the rest of the deployment.
+				a.dupSeen = true
+			}
+
+			ids[id] = true
 		}
 	}
 
@@ -1935,6 +1946,24 @@ type zzG10Obs struct {
 	File   zzG10M   `json:"file"`
 	EffBad []string `json:"effbad"`
 	Err    string   `json:"err,omitempty"`
+	// Notes are remarks for the classifier of known findings; they are not
+	// compared with anything.
+	Notes []string `json:"notes,omitempty"`
+}
+
+// notes looks for the trace of a neighbour's known defect (G07: list ids are
+// handed out again after a restart within the same second): two lists with
+// one id in the file, or the start-up warning about it in the server's log.
+func (a *zzG10Arena) notes() (n []string) {
+	if b, err := os.ReadFile(a.logPath); err == nil && bytes.Contains(b, []byte("has duplicate id")) {
+		a.dupSeen = true
+	}
+
+	if a.dupSeen {
+		return []string{"duplicate filter id"}
+	}
+
+	return nil
 }
 
 // observe projects the three places.  Effects that lag (the filtering engine
@@ -1970,6 +1999,10 @@ func (a *zzG10Arena) observe() (o zzG10Obs) {
 
 	if o.EffBad == nil {
 		o.EffBad = []string{}
+	}
+
+	if len(o.EffBad) > 0 {
+		o.Notes = a.notes()
 	}
 
 	return o
@@ -2383,8 +2416,20 @@ func TestZZVerifG10Walk(t *testing.T) {
 				}
 
 				st := a.exec(v.Lab)
-				hist = append(hist, v.Lab)
 				dst, ok := g.match(v, st)
+				if ok && v.Lab.Op == "crashduring" {
+					// Whether the interrupted change made it into the file
+					// depends on timing: the history keeps what happened, in
+					// a form that can be replayed.
+					if dst != cur {
+						hist = append(hist, zzG10Lab{Op: v.Lab.X, C: v.Lab.C, V: v.Lab.V, W: v.Lab.W})
+					}
+
+					hist = append(hist, zzG10Lab{Op: "crash"})
+				} else {
+					hist = append(hist, v.Lab)
+				}
+
 				if ok {
 					put(zzG10M{"kind": "ok", "v": v.ID, "dst": dst, "cls": st.Cls, "n": len(hist)})
 					cur = dst
@@ -2473,6 +2518,30 @@ func (a *zzG10Arena) randomLabel(rep zzG10M) (l zzG10Lab) {
 			return zzG10Lab{Op: "svc_legacy", V: pick([]string{"none", "s1", "s12"})}
 		default:
 			return zzG10Lab{Op: "profile", V: pick(good["lang"]), W: pick([]string{"auto", "dark", "light"})}
+		}
+	}
+
+	// The documentation does not say what a rewrite entry added twice means:
+	// never ask for one that is there.
+	has := func(id string) bool {
+		l, _ := rep["rw"].([]string)
+		for _, x := range l {
+			if x == id {
+				return true
+			}
+		}
+
+		return false
+	}
+	inner := change
+	change = func() (l zzG10Lab) {
+		for {
+			l = inner()
+			if (l.Op == "rw_add" && has(l.V)) || (l.Op == "rw_upd" && l.V != l.W && has(l.W)) {
+				continue
+			}
+
+			return l
 		}
 	}
 
@@ -2568,7 +2637,7 @@ func TestZZVerifG10Trace(t *testing.T) {
 						}
 
 						rows = append(rows, zzG10M{"h": h, "i": i, "ev": "step", "lab": l, "cls": st.Cls, "code": st.Code,
-							"rep": nz(st.Obs.Rep), "file": nz(st.Obs.File), "effbad": eb, "err": errs, "body": st.Body, "ms": ms})
+							"rep": nz(st.Obs.Rep), "file": nz(st.Obs.File), "effbad": eb, "err": errs, "body": st.Body, "ms": ms, "notes": append([]string{}, st.Obs.Notes...)})
 						// What follows a contradiction is skipped by the
 						// validator anyway.
 						if st.Obs.Rep == nil || len(eb) > 0 || errs != "" {
